@@ -185,7 +185,7 @@ def w_adc_errors(ctx, rng, i):
 
 def w_shortest(ctx, rng, i):
     kind = ["continuous", "few_levels", "plateau_ends", "integers", "tiny_scale", "blocks"][i % 6]
-    n = int(rng.choice([2, 3, 5, 9, 10, 17, 100, 1000, 10007]))
+    n = core.long_or(rng, i, int(rng.choice([2, 3, 5, 9, 10, 17, 100, 1000, 10007])), longs=(40000, 2 ** 17, 2 ** 16 + 1))
     scale = float(10 ** rng.uniform(-9, 3))
     if kind == "continuous":
         d = rng.normal(0, 1, n) * scale
